@@ -152,6 +152,14 @@ def grid_jobs(tier):
         add('grid:n2:b%d:mem:batch:pos' % B, n=2, batch_bytes=B, sizes=sizes)
         if not q or B == 4096:
             add('grid:n2:b%d:file:batch:pos' % B, n=2, batch_bytes=B, sizes=sizes[::2] if q else sizes, journal='file')
+    # file journal growth: record sizes around the file-size boundaries 2^n * 1024 (the record is the pickled
+    # command + 24 bytes; the pickled command is ~58 bytes longer than a bytes payload)
+    for n in ((1, 2, 3) if q else (1, 2, 3, 4, 5)):
+        top = 1024 * 2 ** n
+        sizes = list(range(top - 260, top + 21, 1 if (not q or n < 3) else 2))
+        add('grid:n2:b65536:file:batch:pos:filesize%d' % top, n=2, batch_bytes=65536, sizes=sizes, journal='file')
+        if not q or n == 2:
+            add('grid:n2:b200:file:nobatch:pos:filesize%d' % top, n=2, batch_bytes=200, sizes=sizes[::3], journal='file', batch=False)
     for shape in ('none', 'kw', 'both', 'nested'):
         sizes = [0] if shape == 'none' else [0, 1, 5, 63, 64, 65, 150, 199, 200, 201, 500, 864]
         add('grid:n3:b200:mem:batch:%s' % shape, n=3, batch_bytes=200, sizes=sizes, shape=shape)
